@@ -568,6 +568,40 @@ class ExprMixin:
             st = self.emit("CREATE", d, [frozenset(("tmpname", t[1], t[2]) for t in res)], n, st, frame,
                            extra={"delete": kw.get("delete")})
             return frozenset(res), st
+        if d in PR.IDENTITY_PATH_FUNCS:
+            return (args[0] if args else EMPTY), st
+        if d == "os.open":
+            flags = ast.unparse(n.args[1]) if len(n.args) > 1 else ""
+            if "O_CREAT" in flags or "O_TRUNC" in flags:
+                kind, mode = "CREATE", "w"
+            elif "O_WRONLY" in flags or "O_RDWR" in flags or "O_APPEND" in flags:
+                kind, mode = "WRITE", "r+"
+            elif "O_RDONLY" in flags:
+                kind, mode = "READ", "r"
+            else:
+                self.problem(f"{self.p.loc(frame.func, n)}: os.open() with flags `{flags}` that do not resolve to an access kind")
+                kind, mode = "READ", "r"
+            self.raise_star(st, out)
+            st = self.emit(kind, "os.open", [args[0]], n, st, frame, extra={"mode": flags})
+            site = (frame.func.qual, n.lineno, frame.ctx)
+            return frozenset(("fileno", ("handle", t, mode, site)) for t in args[0]), st
+        if d in ("os.write", "os.fdopen", "os.read"):
+            hs = frozenset(self._handle_of_fileno(t) for t in (args[0] if args else EMPTY))
+            paths = frozenset(h[1] if tag(h) == "handle" else h for h in hs)
+            if d == "os.fdopen":
+                return hs, st
+            self.raise_star(st, out)
+            st = self.emit("WRITE" if d == "os.write" else "READ", d, [paths], n, st, frame, extra={"handle": next(iter(hs), None)})
+            return V(("callres", d, n.lineno)), st
+        if d in ("tempfile.mkstemp", "tempfile.mkdtemp"):
+            dirv = kw.get("dir") or (args[2] if len(args) > 2 else V(("unknown", "tmpdir")))
+            site = (frame.func.qual, n.lineno, frame.ctx, ())
+            self.raise_star(st, out)
+            names = frozenset(("tmpname", dt, site) for dt in dirv)
+            st = self.emit("CREATE" if d.endswith("mkstemp") else "MKDIR", d, [names], n, st, frame)
+            if d.endswith("mkstemp"):
+                return V(("tuple", (frozenset(("fileno", ("handle", t, "w", site)) for t in names), names))), st
+            return names, st
         if d == "os.listdir":
             self.raise_star(st, out)
             st = self.emit("PROBE", d, [args[0]], n, st, frame)
